@@ -45,7 +45,7 @@ func lockKind(k string) string {
 
 // RunGates executes a scenario: sequential set-up and pre-steps, then the
 // concurrent phase under the gate scheduler, then a quiescent round.
-func (w *World) RunGates(sc *Scenario, sched *Sched) error {
+func (w *World) RunGates(sc *Scenario, sched *Sched) (err error) {
 	b := &sc.Behaviour
 	if err := w.SetProjectSnapshot(b.Threshold, b.Interval); err != nil {
 		return err
@@ -252,6 +252,10 @@ func (w *World) RunGates(sc *Scenario, sched *Sched) error {
 		}
 	}
 	w.T.Emit(map[string]any{"ev": "End", "id": b.ID})
+	if len(blockedAtEnd) > 0 {
+		// requests are blocked for good: this server cannot be used any more
+		w.Poisoned = true
+	}
 	return nil
 }
 
@@ -280,7 +284,23 @@ func (w *World) emitPhase(step int, sc *Scenario, sched *Sched, drift, blocked [
 	evs := w.H.Drain()
 	d := sc.Docs[0]
 	open := map[int64]map[string]any{}
-	rid := func(g int64) string { return sched.reqOf[g] }
+	// a goroutine may serve several requests one after the other: the request a
+	// hook event belongs to is the one bound to its goroutine at that time; the
+	// events of one goroutine are in order, and each request ends with pp.exit /
+	// its last lock.released, so the bindings of a goroutine are consumed in order
+	bindsOf := map[int64][]string{}
+	for _, b := range sched.binds {
+		bindsOf[b.gid] = append(bindsOf[b.gid], b.rid)
+	}
+	cur := map[int64]int{}
+	heldN := map[int64]int{}
+	rid := func(g int64) string {
+		bs := bindsOf[g]
+		if cur[g] < len(bs) {
+			return bs[cur[g]]
+		}
+		return ""
+	}
 	clone := func(m map[string]any) map[string]any {
 		o := map[string]any{}
 		for k, v := range m {
@@ -294,6 +314,15 @@ func (w *World) emitPhase(step int, sc *Scenario, sched *Sched, drift, blocked [
 		case "lock.wait", "lock.acquired", "lock.released":
 			w.T.Emit(map[string]any{"ev": "L", "step": step, "gid": he.GID, "rid": rid(he.GID), "op": he.Point[5:],
 				"lock": lockKind(fmt.Sprint(data["key"])), "mode": data["mode"], "d": d})
+			if he.Point == "lock.acquired" {
+				heldN[he.GID]++
+			}
+			if he.Point == "lock.released" {
+				heldN[he.GID]--
+				if heldN[he.GID] == 0 {
+					cur[he.GID]++ // the handler is returning: the next events of this goroutine belong to its next request
+				}
+			}
 		case "pp.enter":
 			cname := data["client"].(string)
 			sess := 0
